@@ -155,7 +155,7 @@ def o43(ctx):
             if upd:
                 for c in "xyz":
                     s_ = mk("add", sym(c), sym("shift_" + c))
-                    src[c] = T("floor", mk("add", s_, const(0.5)))
+                    src[c] = T("rhu", s_)  # update_coordinates: nearest integer, ties away from zero (decimal ROUND_HALF_UP)
                     src["shift_" + c] = mk("sub", s_, src[c])
             label = f"StopgapMotl.write_out(update_coord={upd}, reset_index={reset}) on a list loaded from STOPGAP"
             check_sg_frame(ctx, it, q, sg, src, reset, label, m, fn, samplers=dict(INT_ID, **HALF))
